@@ -228,7 +228,28 @@ class Calls:
         for i, a in enumerate(args):
             names["$%d" % i] = a
         entry = st
+        ntypes = {}
+        if fn is not None:
+            ntypes = {p["name"]: p["type"] for p in fn["params"]}
+            for i, r in enumerate(fn["results"]):
+                ntypes["result%d" % i] = r["type"]
+                if r["name"]:
+                    ntypes[r["name"]] = r["type"]
+            if fn["results"]:
+                ntypes.setdefault("result", fn["results"][0]["type"])
+                if fn["results"][-1]["type"] == "error":
+                    ntypes.setdefault("err", "error")
+        else:
+            sg = self.sig_of(name)
+            if sg is not None:
+                for i, t in enumerate(sg[0]):
+                    ntypes["$%d" % i] = t
+                    if pnames and i < len(pnames):
+                        ntypes[pnames[i]] = t
+                for i, t in enumerate(sg[1]):
+                    ntypes["result%d" % i] = t
         ctx = SpecCtx(self, st, entry, names, fr_pkg=(fn["pkg"] if fn else decl.pkg))
+        ctx.name_types = ntypes
         for cl in decl.get("requires"):
             goal = to_bool(ctx.eval(cl.ast))
             self.check_pre(fr, st, goal, decl, cl, ins)
@@ -247,6 +268,7 @@ class Calls:
         for cl in decl.get("modifies"):
             self.havoc_modifies(st, cl, names, fn, decl)
         ctx2 = SpecCtx(self, st, pre_state, rn, fr_pkg=(fn["pkg"] if fn else decl.pkg))
+        ctx2.name_types = ntypes
         ctx2.pol = -1
         for cl in decl.get("ensures"):
             for part in (cl.extra.get("caller_view") if cl.extra.get("trace") else [cl.ast]):
@@ -283,11 +305,17 @@ class Calls:
         from .speceval import SpecCtx
         ctx = SpecCtx(self, st, st, names, fr_pkg=(fn["pkg"] if fn else decl.pkg))
         for part in cl.extra["targets"]:
-            p = ctx.eval_addr(part)
+            try:
+                p = ctx.eval_addr(part)
+            except Exception:
+                p = ctx.eval(part)
+            if isinstance(p, IfaceV) and p.dyn is not None and isinstance(p.dyn[1], PtrV):
+                p = p.dyn[1]     # an interface{} argument wrapping a pointer (out parameter)
             if isinstance(p, PtrV):
                 cur = st.load(p)
+                nw = len(st.writes)
                 st.store(p, self.havoc_like(st, cur))
-                st.writes.pop()
+                del st.writes[nw:]
             elif isinstance(p, MapV):
                 c = st.map_contents(p)
                 st.heap[p.cell] = MapC(z3.Const(fresh_name("mapbase"), z3.IntSort()), (), c.kt, c.vt)
